@@ -349,8 +349,8 @@ type TransportLayerCC struct {
 // }
 // }
 
-func (t *TransportLayerCC) packetLen() uint16 {
-	n := uint16(headerLength + packetChunkOffset + len(t.PacketChunks)*2)
+func (t *TransportLayerCC) packetLen() int {
+	n := headerLength + packetChunkOffset + len(t.PacketChunks)*2
 	for _, d := range t.RecvDeltas {
 		if d.Type == TypeTCCPacketReceivedSmallDelta {
 			n++
@@ -374,7 +374,7 @@ func (t *TransportLayerCC) MarshalSize() int {
 		n = (n/4 + 1) * 4
 	}
 
-	return int(n)
+	return n
 }
 
 func (t TransportLayerCC) String() string {
@@ -438,7 +438,7 @@ func (t TransportLayerCC) Marshal() ([]byte, error) {
 	}
 
 	if t.Header.Padding {
-		payload[len(payload)-1] = uint8(t.MarshalSize() - int(t.packetLen()))
+		payload[len(payload)-1] = uint8(t.MarshalSize() - t.packetLen())
 	}
 
 	return append(header, payload...), nil
@@ -456,13 +456,13 @@ func (t *TransportLayerCC) Unmarshal(rawPacket []byte) error { //nolint:gocognit
 
 	// https://tools.ietf.org/html/rfc4585#page-33
 	// header's length + payload's length
-	totalLength := 4 * (t.Header.Length + 1)
+	totalLength := 4 * (int(t.Header.Length) + 1)
 
 	if totalLength < headerLength+packetChunkOffset {
 		return errPacketTooShort
 	}
 
-	if len(rawPacket) < int(totalLength) {
+	if len(rawPacket) < totalLength {
 		return errPacketTooShort
 	}
 
@@ -477,7 +477,7 @@ func (t *TransportLayerCC) Unmarshal(rawPacket []byte) error { //nolint:gocognit
 	t.ReferenceTime = get24BitsFromBytes(rawPacket[headerLength+referenceTimeOffset : headerLength+referenceTimeOffset+3])
 	t.FbPktCount = rawPacket[headerLength+fbPktCountOffset]
 
-	packetStatusPos := uint16(headerLength + packetChunkOffset)
+	packetStatusPos := headerLength + packetChunkOffset
 	var processedPacketNum uint16
 	for processedPacketNum < t.PacketStatusCount {
 		if packetStatusPos+packetStatusChunkLength > totalLength {
